@@ -18,12 +18,17 @@ RULE = (
     "parity_meas for every Pauli string over I,X,Y,Z of length 1..3 with and without leading '-' (168) on basis states and "
     "Hypothesis-drawn random states, both outcomes forced; sessions of 1..4 toolbox calls on one connection (operands in any order out of 3..4 qubits, "
     "parity strings on subsets, flushes anywhere, all outcomes read after the last flush) against the documented operators applied in order; "
-    "set_qubit_state angles also negative and beyond 2pi; flavours vanilla and NV-transpiled.  Non-trivial = every case "
+    "set_qubit_state angles also negative and beyond 2pi, and given as int / numpy integer / numpy float instead of float (whole numbers of radians); "
+    "parity_meas with the caller's qubit list in any order of virtual ids and the call repeated on the same list object (same outcome, state unchanged); "
+    "sessions in which several parity_meas calls share one caller-owned list object; flavours vanilla and NV-transpiled.  Non-trivial = every case "
     "except all-identity strings; distinct by (circuit, string, state, outcome, flavour)"
 )
 ASSUMPTIONS = [
     "gate semantics of vlib.quantum on the harness executor; outcome forcing falls back when the forced outcome has probability < 1e-9",
     "set_qubit_state tolerance: fidelity >= 1 - 2e-8 (two rotations, each within 1e-4 rad of its angle, keep the state within about 0.7e-4 of the target)",
+    "an angle is any real number: Python int and numpy int32/int64/float32/float64 scalars are in the domain of the `float` parameters (the numeric tower of "
+    "PEP 484; the unmodified code reduces them with `%`); the target state is computed from float(value)",
+    "a list handed to parity_meas stays the caller's: using the same list object for a later call addresses the same qubits in the same order",
 ]
 SHARDS = {"quick": 4, "thorough": 16}
 
@@ -109,13 +114,26 @@ def check_unitary(case) -> None:
         raise Failure(f"{which}:operator:{case['flavour']}", case, f"{which} does not implement its documented operator (overlap with the expected output {abs(np.vdot(want, got)):.4f})")
 
 
+ANGLE_TYPES = {"float": float, "int": int, "np.int64": np.int64, "np.int32": np.int32, "np.float64": np.float64, "np.float32": np.float32}
+INT_ANGLE_TYPES = ("int", "np.int64", "np.int32")
+
+
+def typed_angle(value, tname: str):
+    """the number `value` as an instance of the named type (the case itself stays JSON: value + type name)"""
+    return ANGLE_TYPES[tname](value)
+
+
 def check_state_prep(case) -> None:
     from netqasm.sdk.toolbox import set_qubit_state
 
     ctrl, conn, ex, qs = setup(case["flavour"], 1)
-    theta, phi = case["theta"], case["phi"]
+    tt, pt = case.get("theta_type", "float"), case.get("phi_type", "float")
+    theta_arg, phi_arg = typed_angle(case["theta"], tt), typed_angle(case["phi"], pt)
+    # the oracle works with the real number that the argument denotes
+    theta, phi = float(theta_arg), float(phi_arg)
+    typed = "" if (tt, pt) == ("float", "float") else f":{tt},{pt}"
     try:
-        set_qubit_state(qs[0], phi=phi, theta=theta)
+        set_qubit_state(qs[0], phi=phi_arg, theta=theta_arg)
         conn.flush()
     except Exception as e:
         raise Failure(f"state_prep:raises:{case['flavour']}", case, f"{type(e).__name__}: {(str(e).splitlines() or [''])[0][:200]}")
@@ -123,7 +141,8 @@ def check_state_prep(case) -> None:
     want = np.array([math.cos(theta / 2), np.exp(1j * phi) * math.sin(theta / 2)], dtype=complex)
     f = abs(np.vdot(want, got)) ** 2
     if f < 1 - 2e-8:
-        raise Failure(f"state_prep:fidelity:{case['flavour']}", case, f"set_qubit_state(theta={theta}, phi={phi}) prepared a state with fidelity {f:.8f}")
+        sig = f"state_prep:fidelity:{case['flavour']}" if not typed else f"state_prep:fidelity-non-float-angle:{case['flavour']}"
+        raise Failure(sig, case, f"set_qubit_state(theta={theta_arg!r} [{tt}], phi={phi_arg!r} [{pt}]) prepared a state with fidelity {f:.8f}")
 
 
 def pauli_string_op(bases: str) -> np.ndarray:
@@ -140,7 +159,12 @@ def check_parity(case) -> None:
     neg = bases_full.startswith("-")
     bases = bases_full[1:] if neg else bases_full
     n = len(bases)
-    ctrl, conn, ex, qs = setup(case["flavour"], n)
+    ctrl, conn, ex, alloc = setup(case["flavour"], n)
+    # the caller lists the qubits in any order of their virtual ids; `qs` is the harness's own record of that order,
+    # `arg` is the list object that the caller hands to parity_meas (and keeps using afterwards)
+    perm = case.get("perm") or list(range(n))
+    qs = [alloc[i] for i in perm]
+    arg = list(qs)
     vec = np.array([complex(a, b) for a, b in case["state"]], dtype=complex)
     vec = vec / np.linalg.norm(vec)
     inject(ex, conn, qs, vec)
@@ -153,7 +177,7 @@ def check_parity(case) -> None:
     raw_forced = m_forced ^ (1 if neg else 0)
     ex.outcomes = [raw_forced]
     try:
-        m = parity_meas(qs, bases_full)
+        m = parity_meas(arg, bases_full)
         conn.flush()
         m_val = int(m)
     except Exception as e:
@@ -180,6 +204,26 @@ def check_parity(case) -> None:
         raise Failure(f"parity:post-state:{case['flavour']}", case, f"parity_meas({bases_full!r}) outcome {m_val}: post-measurement state is not the projection (overlap {abs(np.vdot(want, got)):.4f})")
     if p_expected[m_forced] > 1e-9 and m_val != m_forced:
         raise Failure(f"parity:outcome-mapping:{case['flavour']}", case, f"forced parity outcome {m_forced} was reported as {m_val}")
+    if not case.get("repeat"):
+        return
+    # The caller measures the same Pauli string again, handing in the same list object.  The state is now an eigenstate of
+    # s*P with eigenvalue (-1)^m: the same outcome has probability 1 (the opposite raw outcome is forced and must be impossible)
+    # and the state stays what it is.
+    probs.clear()
+    ex.outcomes = [1 - (m_val ^ (1 if neg else 0))]
+    try:
+        m2 = parity_meas(arg, bases_full)
+        conn.flush()
+        m2_val = int(m2)
+    except Exception as e:
+        raise Failure(f"parity:repeat-raises:{case['flavour']}", case, f"second parity_meas({bases_full!r}) on the same list raised {type(e).__name__}: {(str(e).splitlines() or [''])[0][:200]}")
+    if m2_val != m_val:
+        raise Failure(f"parity:repeat-outcome:{case['flavour']}", case, f"parity_meas({bases_full!r}) gave {m_val}; repeated at once on the same list object (qubits listed in id order {perm}) it gave {m2_val}")
+    if len(ex.sv.labels) != n:
+        raise Failure(f"parity:ancilla-left:{case['flavour']}", case, f"{len(ex.sv.labels)} qubits in memory after the repeated parity measurement on {n}")
+    got = ex.sv.ordered([phys_of(ex, conn, q) for q in qs])
+    if not qm.vec_equal_up_to_phase(got, want, 1e-7):
+        raise Failure(f"parity:repeat-post-state:{case['flavour']}", case, f"parity_meas({bases_full!r}) repeated on the same list object (qubits listed in id order {perm}) changed the state (overlap {abs(np.vdot(want, got)):.4f})")
 
 
 TOFFOLI = np.eye(8, dtype=complex)
@@ -208,6 +252,8 @@ def check_session(case, open_findings=()) -> None:
     model = vec.copy()
     expected: List[int] = []
     handles: List[Any] = []
+    # caller-owned lists: with case["alias"], parity measurements on the same qubits in the same order hand in the same list object
+    lists: Dict[Any, List[Any]] = {}
     for op in case["ops"]:
         if op[0] == "parity":
             forced.append(op[3] ^ (1 if op[2].startswith("-") else 0))
@@ -235,7 +281,10 @@ def check_session(case, open_findings=()) -> None:
                 expected.append(m)
                 model = proj[m] @ model
                 model = model / np.linalg.norm(model)
-                handles.append(parity_meas([qs[i] for i in idx], bases_full))
+                arg = [qs[i] for i in idx]
+                if case.get("alias"):
+                    arg = lists.setdefault(tuple(idx), arg)
+                handles.append(parity_meas(arg, bases_full))
             elif op[0] == "flush":
                 conn.flush()
         conn.flush()
@@ -272,6 +321,8 @@ def st_session(draw):
             q = draw(st.integers(0, n - 1))
             ops.append(["parity", [q], ("-" if draw(st.booleans()) else "") + draw(st.sampled_from("XYZ")), draw(st.integers(0, 1))])
         return {"kind": "session", "flavour": fl, "n": n, "state": amps, "ops": ops, "long": True}
+    alias = draw(st.sampled_from([True, True, False]))
+    used: List[Any] = []  # operand lists of the parity measurements so far
     for _ in range(draw(st.integers(1, 4))):
         k = draw(st.integers(0, 9))
         if k <= 2:
@@ -279,8 +330,13 @@ def st_session(draw):
         elif k == 3:
             ops.append(["t_inverse", draw(st.integers(0, n - 1))])
         elif k <= 7:
-            m = draw(st.integers(1, 3))
-            idx = draw(st.permutations(range(n)))[:m]
+            if alias and used and draw(st.integers(0, 2)) > 0:
+                idx = list(draw(st.sampled_from(used)))  # the caller uses a list it already has
+                m = len(idx)
+            else:
+                m = draw(st.integers(1, 3))
+                idx = draw(st.permutations(range(n)))[:m]
+                used.append(list(idx))
             letters = draw(st.lists(st.sampled_from("IXYZ"), min_size=m, max_size=m))
             if all(c == "I" for c in letters):
                 letters[draw(st.integers(0, m - 1))] = draw(st.sampled_from("XYZ"))
@@ -289,7 +345,7 @@ def st_session(draw):
             ops.append(["flush"])
         if draw(st.integers(0, 2)) == 0:
             ops.append(["flush"])
-    return {"kind": "session", "flavour": fl, "n": n, "state": amps, "ops": ops}
+    return {"kind": "session", "flavour": fl, "n": n, "state": amps, "ops": ops, "alias": alias}
 
 
 def check(case, open_findings=()) -> None:
@@ -347,16 +403,31 @@ def shard(ctx: Ctx) -> None:
     st_amp = st.tuples(st.floats(-1, 1, allow_nan=False), st.floats(-1, 1, allow_nan=False)).map(list)
 
     def body_parity(t):
-        bs, amps, outcome, fl = t
+        bs, amps, outcome, fl, order, repeat = t
         nq = len(bs.lstrip("-"))
         amps = amps[: 2**nq]
         if sum(a * a + b * b for a, b in amps) < 1e-3:
             amps = [[1.0, 0.0]] + amps[1:]
-        case = {"kind": "parity", "bases": bs, "state": amps, "outcome": outcome, "flavour": fl}
+        # the order in which the caller lists the allocated qubits: the relative order of the first nq entries of a permutation of 0..2
+        perm = [sorted(order[:nq]).index(v) for v in order[:nq]]
+        case = {"kind": "parity", "bases": bs, "state": amps, "outcome": outcome, "flavour": fl, "perm": perm, "repeat": repeat}
         check(case)
-        stt.case(case, set(bs.lstrip("-")) != {"I"}, ["parity:random-state", fl])
+        labels = ["parity:random-state", fl]
+        if perm != sorted(perm):
+            labels.append("parity:list-not-in-id-order")
+        if repeat:
+            labels.append("parity:repeated-on-the-same-list")
+            if perm != sorted(perm):
+                labels.append("parity:repeated-on-the-same-list,not-in-id-order")
+        stt.case(case, set(bs.lstrip("-")) != {"I"}, labels)
 
-    ctx.search(st.tuples(st.sampled_from(strings), st.lists(st_amp, min_size=8, max_size=8), st.integers(0, 1), st.sampled_from(["vanilla", "vanilla", "nv"])), body_parity, n, name="c20-parity")
+    st_order = st.permutations([0, 1, 2])
+    ctx.search(
+        st.tuples(st.sampled_from(strings), st.lists(st_amp, min_size=8, max_size=8), st.integers(0, 1), st.sampled_from(["vanilla", "vanilla", "nv"]), st_order, st.sampled_from([True, True, False])),
+        body_parity,
+        n,
+        name="c20-parity",
+    )
 
     def body_prep(t):
         theta, phi, fl = t
@@ -366,6 +437,28 @@ def shard(ctx: Ctx) -> None:
 
     st_angle = st.floats(0, 2 * math.pi) | st.floats(-4 * math.pi, 6 * math.pi) | st.sampled_from([0.0, -math.pi / 2, -math.pi, math.pi, 2 * math.pi, -1e-3, 3 * math.pi])
     ctx.search(st.tuples(st.floats(0, math.pi) | st_angle, st_angle, st.sampled_from(["vanilla", "nv"])), body_prep, n // 2, name="c20-prep", salt=1)
+
+    def body_prep_typed(t):
+        (theta, tt), (phi, pt), fl = t
+        case = {"kind": "state_prep", "theta": theta, "phi": phi, "theta_type": tt, "phi_type": pt, "flavour": fl}
+        check(case)
+        labels = ["state_prep", fl, "state_prep:angle-type"]
+        for v, tn in ((theta, tt), (phi, pt)):
+            if tn != "float":
+                labels.append(f"state_prep:angle-as-{tn}")
+            if tn in INT_ANGLE_TYPES and v != 0:
+                labels.append("state_prep:non-zero-angle-of-an-integer-type")
+        stt.case(case, (tt, pt) != ("float", "float"), labels, sample=case)
+
+    # an angle together with the type it is handed over as: whole numbers of radians as int / numpy integers, reals as float /
+    # np.float64 / np.float32 (the float32 value is stored exactly, as the Python float it converts to)
+    st_typed = (
+        st.tuples(st.integers(-12, 20), st.sampled_from(INT_ANGLE_TYPES))
+        | st.tuples(st.integers(1, 6), st.sampled_from(INT_ANGLE_TYPES))
+        | st.tuples(st_angle, st.sampled_from(["float", "np.float64"]))
+        | st.tuples(st.floats(-12.5, 18.75, width=32), st.just("np.float32"))
+    )
+    ctx.search(st.tuples(st_typed, st_typed, st.sampled_from(["vanilla", "nv"])), body_prep_typed, max(n // 3, 12), name="c20-prep-typed", salt=3)
 
     def body_session(case):
         try:
@@ -384,6 +477,13 @@ def shard(ctx: Ctx) -> None:
             labels.append("session:17+-in-place-measurements-in-one-subroutine")
         if any(op[0] == "toffoli" and list(op[1]) != sorted(op[1]) for op in case["ops"]):
             labels.append("session:permuted-toffoli")
+        if case.get("alias"):
+            par = [tuple(op[1]) for op in case["ops"] if op[0] == "parity"]
+            again = [i for i in set(par) if par.count(i) >= 2]
+            if again:
+                labels.append("session:one-list-object-in->=2-parity-calls")
+            if any(len(i) >= 2 and list(i) != sorted(i) for i in again):
+                labels.append("session:one-list-object-in->=2-parity-calls,not-in-id-order")
         stt.case(case, len([k for k in kinds if k != "flush"]) >= 2, labels, sample=case if len(case["ops"]) <= 3 else None)
 
     ctx.search(st_session(), body_session, n * 2, name="c20-session", salt=2)
